@@ -29,7 +29,8 @@ MCAlphabet == <<
   A(TRUE,  "B",  7, "",  "O",  "",  "HOH", "wide"),   \* 11  water whose serial number fills all five columns
   O("ter"), O("end"), O("model"), O("endmdl"), O("blank"), O("unknown"), O("remark"),
   A(FALSE, "A",  5, "",  "O",  "",  "WAT", "full"),   \* 19  water written as an ATOM record (as MD tools do)
-  A(TRUE,  "",   6, "",  "O",  "",  "HOH", "full")    \* 20  water without chain identifier
+  A(TRUE,  "",   6, "",  "O",  "",  "HOH", "full"),   \* 20  water without chain identifier
+  [O("model") EXCEPT !.fmt = "bare"]                  \* 21  MODEL record without its serial number ("MODEL" / "MODEL 1")
 >>
 R == INSTANCE PdbReader WITH Alphabet <- MCAlphabet
 ReadLine(s) == R!ReadLine(s)
